@@ -274,7 +274,7 @@ def rule_composite(ctx, rid, po, comp, abstract):
     init = comp.lookup("__init__")
     notes = [n for n in abstract if n not in ("__enter__", "__exit__")]
 
-    def world(fail_enter=None, fail_exit=None):
+    def world(fail_enter=None, fail_exit=None, enter_exc=None):
         log = []
         interp_box = []
 
@@ -331,7 +331,7 @@ def rule_composite(ctx, rid, po, comp, abstract):
                 def fn(*a, **kw):
                     log.append((nm, method, tuple(a), tuple(sorted(kw.items(), key=lambda t: t[0]))))
                     if method == "__enter__" and fail_enter == nm:
-                        raise AbsRaise(f"enter-failure-{nm}")
+                        raise AbsRaise(enter_exc if enter_exc is not None else f"enter-failure-{nm}")
                     if method == "__exit__" and fail_exit == nm:
                         raise AbsRaise(f"exit-failure-{nm}")
                     return None if method == "__exit__" else ret
@@ -404,6 +404,20 @@ def rule_composite(ctx, rid, po, comp, abstract):
     ctx.ob(rid, "Composite.__enter__/exit-stack", ok, loc(en),
            "if a later member fails to enter, the members already entered are left again and the failure propagates" if ok else
            f"if a later member fails to enter, earlier members are never exited (or the failure is lost): {seq}, raised {err!r}")
+    # ... also when what interrupts the entering is not an Exception (Ctrl-C while the second display starts)
+    ki = Obj(None, {}, name="KeyboardInterrupt")
+    interp, me, members, log = world(fail_enter="m2", enter_exc=ki)
+    try:
+        call(interp, me, "__enter__")
+        err = None
+    except AbsRaise as e:
+        err = e.value
+    seq = [(e_[0], e_[1]) for e_ in log]
+    ok = err is ki and seq.count(("m1", "__exit__")) == 1 and ("m2", "__exit__") not in seq
+    ctx.ob(rid, "Composite.__enter__/exit-stack[BaseException]", ok, loc(en),
+           "a KeyboardInterrupt while a later member is being entered leaves the members already entered and propagates" if ok else
+           f"a KeyboardInterrupt while a later member is being entered does not unwind the members already entered (their update threads "
+           f"run for ever): {seq}, raised {getattr(err, 'name', err)!r}")
     interp, me, members, log = world(fail_exit="m3")
     try:
         call(interp, me, "__enter__")
